@@ -119,6 +119,20 @@ def run(names, tier='quick', props=None):
             sh(['git', '-C', '/repo', 'clean', '-fdq'])
     for r in rows:
         print('\t'.join(r))
+    if not names:
+        # a full run: record which checks catch which changes
+        with open(os.path.join(sd, 'RESULTS.md'), 'w') as f:
+            f.write('# Seeded changes vs. checks (%s tier)\n\nWritten by `python3 scripts/seeded.py run`: each change is applied to /repo, the check of its property runs, the change is undone.\n\n' % tier)
+            f.write('| change | property | result | what the change does | needs |\n|---|---|---|---|---|\n')
+            for r in rows:
+                meta = {}
+                try:
+                    meta = json.load(open(os.path.join(sd, r[0], 'meta.json')))
+                except Exception:
+                    pass
+                res = r[2] + (' (correspondence / proof tie only: no-failing-input-found)' if len(r) > 3 and 'no-failing-input-found' in r[3] else '')
+                f.write('| %s | %s | %s | %s | %s |\n' % (r[0], r[1], res, str(meta.get('summary', '')).replace('|', '/').replace('\n', ' '),
+                                                     str(meta.get('needs', '')).replace('|', '/').replace('\n', ' ')))
     return rows
 
 
